@@ -202,6 +202,8 @@ type Aggregate struct {
 	Runs     []*Run
 	Dead     []string // children that died / timed out: inconclusive
 	Start    time.Time
+	// RequireTotals: scenario classes that must have been observed at least this often over all cases together.
+	RequireTotals map[string]int64
 }
 
 func (a *Aggregate) Emit() int {
@@ -233,6 +235,11 @@ func (a *Aggregate) Emit() int {
 		}
 	}
 	inconc = append(inconc, a.Dead...)
+	for name, min := range a.RequireTotals {
+		if counters[name] < min {
+			inconc = append(inconc, fmt.Sprintf("required scenario class %q observed %d < %d times over all cases", name, counters[name], min))
+		}
+	}
 	ck := make([]string, 0, len(classes))
 	for k := range classes {
 		ck = append(ck, k)
